@@ -790,6 +790,23 @@ class SK(object):
     def e_JoinedStr(self, e, env):
         return ''
 
+    def e_Lambda(self, e, env):
+        ps = [a.arg for a in e.args.args]
+        dfl = [self.ev(d, env) for d in e.args.defaults]
+
+        def f(sk, node, *a, _env=env, **k):
+            env2 = dict(_env)
+            for p_, d_ in zip(ps[len(ps) - len(dfl):], dfl):
+                env2[p_] = d_
+            for p_, v_ in zip(ps, a):
+                env2[p_] = v_
+            for k_, v_ in k.items():
+                env2[k_] = v_
+            if e.args.vararg:
+                env2[e.args.vararg.arg] = tuple(a[len(ps):])
+            return sk.ev(e.body, env2)
+        return Py(f, 'lambda')
+
     def e_Yield(self, e, env):
         if not self.gen_stack:
             raise Unsupported('yield outside an interpreted generator')
